@@ -43,4 +43,431 @@ theorem xCompiled_parts (N : Nat) (o : List Nat) :
     xCompiled N o = o.map (s2Sk N) ++ ((compiledMZ N).map (mzSk 0) ++ (List.range N).map (fun i => rSk (i + 0)))
       ++ ((compiledMZ N).map (mzSk N) ++ (List.range N).map (fun i => rSk (i + N))) ++ [measSk (2 * N)] := rfl
 
+/-! ## the full conformance proof: layer tags, per-wire sortedness, equal membership -/
+
+/-- two lists sorted by an irreflexive, asymmetric relation with the same members are equal -/
+theorem sorted_ext {α : Type} {R : α → α → Prop} (irr : ∀ a, ¬ R a a) (asy : ∀ a b, R a b → ¬ R b a) :
+    ∀ (l1 l2 : List α), l1.Pairwise R → l2.Pairwise R → (∀ a, a ∈ l1 ↔ a ∈ l2) → l1 = l2 := by
+  intro l1
+  induction l1 with
+  | nil =>
+    intro l2 _ _ h
+    cases l2 with
+    | nil => rfl
+    | cons b bs => exact absurd ((h b).2 List.mem_cons_self) (by simp)
+  | cons a as ih =>
+    intro l2 h1 h2 h
+    cases l2 with
+    | nil => exact absurd ((h a).1 List.mem_cons_self) (by simp)
+    | cons b bs =>
+      rw [List.pairwise_cons] at h1 h2
+      have hab : a = b := by
+        rcases List.mem_cons.1 ((h a).1 List.mem_cons_self) with e | ha
+        · exact e
+        · rcases List.mem_cons.1 ((h b).2 List.mem_cons_self) with e | hb
+          · exact e.symm
+          · exact absurd (h1.1 b hb) (asy _ _ (h2.1 a ha))
+      subst hab
+      congr 1
+      apply ih bs h1.2 h2.2
+      intro x
+      constructor
+      · intro hx
+        rcases List.mem_cons.1 ((h x).1 (List.mem_cons_of_mem _ hx)) with e | hx'
+        · subst e; exact absurd (h1.1 x hx) (irr x)
+        · exact hx'
+      · intro hx
+        rcases List.mem_cons.1 ((h x).2 (List.mem_cons_of_mem _ hx)) with e | hx'
+        · subst e; exact absurd (h2.1 x hx) (irr x)
+        · exact hx'
+
+/-- layout mesh with layer tags `(layer, first mode)` -/
+def layoutT (N : Nat) : List (Nat × Nat) :=
+  (List.range N).flatMap fun l => (layer N l).map fun p => (l, p)
+
+/-- column sweeps: the gate `k - l` of the sweep of the even diagonal `k` sits in layer `l` -/
+def tiT (N : Nat) : List (Nat × Nat) :=
+  (List.range (N - 1)).flatMap fun k => if k % 2 = 0 then (List.range (k + 1)).map (fun l => (l, k - l)) else []
+
+/-- reversed row sweeps: odd diagonals from the last to the first, each from its last gate to its first;
+the gate `N-2-i` sits in layer `N-1-k+i` -/
+def trT (N : Nat) : List (Nat × Nat) :=
+  (List.range (N - 1)).reverse.flatMap fun k =>
+    if k % 2 = 1 then (List.range (k + 1)).map (fun i => (N - 1 - k + i, N - 2 - i)) else []
+
+def compiledT (N : Nat) : List (Nat × Nat) := tiT N ++ trT N
+
+theorem layoutT_snd (N : Nat) : (layoutT N).map Prod.snd = layoutMZ N := by
+  simp [layoutT, layoutMZ, List.map_flatMap, Function.comp_def]
+
+theorem tiT_snd (N : Nat) : (tiT N).map Prod.snd = tilist N := by
+  simp only [tiT, tilist, List.map_flatMap, colSweep]
+  congr 1
+  funext k
+  split <;> simp [Function.comp_def]
+
+theorem range_reverse_map (n : Nat) (f : Nat → Nat) :
+    ((List.range n).map f).reverse = (List.range n).map fun i => f (n - 1 - i) := by
+  apply List.ext_getElem
+  · simp
+  · intro i h1 h2
+    simp only [List.length_reverse, List.length_map, List.length_range] at h1
+    simp [List.getElem_reverse]
+
+theorem flatMap_congr' {α β : Type} {l : List α} {f g : α → List β} (h : ∀ a ∈ l, f a = g a) :
+    l.flatMap f = l.flatMap g := by
+  induction l with
+  | nil => rfl
+  | cons a as ih =>
+    simp only [List.flatMap_cons]
+    rw [h a List.mem_cons_self, ih fun b hb => h b (List.mem_cons_of_mem _ hb)]
+
+theorem trT_snd (N : Nat) : (trT N).map Prod.snd = (tlist N).reverse := by
+  simp only [trT, tlist, List.map_flatMap, List.reverse_flatMap]
+  apply flatMap_congr'
+  intro k hk
+  simp only [List.mem_reverse, List.mem_range] at hk
+  simp only [Function.comp_apply]
+  split
+  · simp only [rowSweep, range_reverse_map, List.map_map]
+    apply List.map_congr_left
+    intro i hi
+    simp only [List.mem_range] at hi
+    simp only [Function.comp_apply]
+    omega
+  · simp
+
+theorem compiledT_snd (N : Nat) : (compiledT N).map Prod.snd = compiledMZ N := by
+  simp [compiledT, compiledMZ, tiT_snd, trT_snd]
+
+/-! ### membership -/
+
+theorem mem_layoutT {N l p : Nat} : (l, p) ∈ layoutT N ↔ l < N ∧ p + 1 < N ∧ p % 2 = l % 2 := by
+  simp only [layoutT, layer, List.mem_flatMap, List.mem_range, List.mem_map, List.mem_filter,
+    decide_eq_true_eq, Prod.mk.injEq]
+  constructor
+  · rintro ⟨l', hl', p', ⟨hp', hpar⟩, rfl, rfl⟩
+    exact ⟨hl', by omega, hpar⟩
+  · rintro ⟨hl, hp, hpar⟩
+    exact ⟨l, hl, p, ⟨by omega, hpar⟩, rfl, rfl⟩
+
+theorem mem_tiT {N l p : Nat} : (l, p) ∈ tiT N ↔ ∃ k, k < N - 1 ∧ k % 2 = 0 ∧ l ≤ k ∧ p = k - l := by
+  simp only [tiT, List.mem_flatMap, List.mem_range]
+  constructor
+  · rintro ⟨k, hk, hx⟩
+    by_cases he : k % 2 = 0
+    · simp only [he, if_true, List.mem_map, List.mem_range, Prod.mk.injEq] at hx
+      obtain ⟨l', hl', rfl, rfl⟩ := hx
+      exact ⟨k, hk, he, by omega, rfl⟩
+    · simp [he] at hx
+  · rintro ⟨k, hk, he, hl, rfl⟩
+    refine ⟨k, hk, ?_⟩
+    simp only [he, if_true, List.mem_map, List.mem_range, Prod.mk.injEq]
+    exact ⟨l, by omega, rfl, rfl⟩
+
+theorem mem_trT {N l p : Nat} :
+    (l, p) ∈ trT N ↔ ∃ k, k < N - 1 ∧ k % 2 = 1 ∧ ∃ i, i ≤ k ∧ l = N - 1 - k + i ∧ p = N - 2 - i := by
+  simp only [trT, List.mem_flatMap, List.mem_reverse, List.mem_range]
+  constructor
+  · rintro ⟨k, hk, hx⟩
+    by_cases he : k % 2 = 1
+    · simp only [he, if_true, List.mem_map, List.mem_range, Prod.mk.injEq] at hx
+      obtain ⟨i, hi, rfl, rfl⟩ := hx
+      exact ⟨k, hk, he, i, by omega, rfl, rfl⟩
+    · simp [he] at hx
+  · rintro ⟨k, hk, he, i, hi, rfl, rfl⟩
+    refine ⟨k, hk, ?_⟩
+    simp only [he, if_true, List.mem_map, List.mem_range, Prod.mk.injEq]
+    exact ⟨i, by omega, rfl, rfl⟩
+
+/-- the symmetric decomposition emits exactly the gates of the layered mesh (as tagged positions) -/
+theorem mem_compiledT_iff (N : Nat) (x : Nat × Nat) : x ∈ compiledT N ↔ x ∈ layoutT N := by
+  obtain ⟨l, p⟩ := x
+  rw [compiledT, List.mem_append, mem_tiT, mem_trT, mem_layoutT]
+  constructor
+  · rintro (⟨k, hk, he, hl, rfl⟩ | ⟨k, hk, he, i, hi, rfl, rfl⟩)
+    · exact ⟨by omega, by omega, by omega⟩
+    · exact ⟨by omega, by omega, by omega⟩
+  · rintro ⟨hl, hp, hpar⟩
+    by_cases h : l + p + 2 ≤ N
+    · exact Or.inl ⟨l + p, by omega, by omega, by omega, by omega⟩
+    · exact Or.inr ⟨2 * N - 3 - l - p, by omega, by omega, N - 2 - p, by omega, by omega, by omega⟩
+
+/-! ### per-wire order -/
+
+/-- the gate `(p, p+1)` touches wire `w` -/
+def touch (w : Nat) (x : Nat × Nat) : Bool := decide (x.2 = w ∨ x.2 + 1 = w)
+
+/-- on one wire, earlier means strictly lower layer -/
+def WOrd (w : Nat) (x y : Nat × Nat) : Prop := touch w x = true → touch w y = true → x.1 < y.1
+
+theorem layoutT_wire_sorted (N w : Nat) : (layoutT N).Pairwise (WOrd w) := by
+  rw [layoutT, List.pairwise_flatMap]
+  constructor
+  · intro l _
+    rw [List.pairwise_map]
+    apply List.Pairwise.imp _ (List.Pairwise.and_mem.1 (List.Pairwise.filter _ List.pairwise_lt_range))
+    intro p1 p2 ⟨h1, h2, hlt⟩
+    -- same layer, different gates: they cannot both touch the wire (parity)
+    simp only [layer, List.mem_filter, decide_eq_true_eq] at h1 h2
+    intro t1 t2
+    simp only [touch, decide_eq_true_eq] at t1 t2
+    omega
+  · apply List.Pairwise.imp _ List.pairwise_lt_range
+    intro l1 l2 hlt x hx y hy
+    simp only [List.mem_map] at hx hy
+    obtain ⟨p1, _, rfl⟩ := hx
+    obtain ⟨p2, _, rfl⟩ := hy
+    intro _ _
+    exact hlt
+
+theorem tiT_wire_sorted (N w : Nat) : (tiT N).Pairwise (WOrd w) := by
+  rw [tiT, List.pairwise_flatMap]
+  constructor
+  · intro k _
+    split
+    · rw [List.pairwise_map]
+      apply List.Pairwise.imp _ List.pairwise_lt_range
+      intro l1 l2 hlt _ _
+      exact hlt
+    · exact List.Pairwise.nil
+  · apply List.Pairwise.imp _ List.pairwise_lt_range
+    intro k1 k2 hlt x hx y hy
+    by_cases h1 : k1 % 2 = 0
+    · by_cases h2 : k2 % 2 = 0
+      · simp only [h1, h2, if_true, List.mem_map, List.mem_range] at hx hy
+        obtain ⟨l1, hl1, rfl⟩ := hx
+        obtain ⟨l2, hl2, rfl⟩ := hy
+        intro t1 t2
+        simp only [touch, decide_eq_true_eq] at t1 t2
+        show l1 < l2
+        omega
+      · simp [h2] at hy
+    · simp [h1] at hx
+
+theorem trT_wire_sorted (N w : Nat) : (trT N).Pairwise (WOrd w) := by
+  rw [trT, List.pairwise_flatMap]
+  constructor
+  · intro k _
+    split
+    · rw [List.pairwise_map]
+      apply List.Pairwise.imp _ List.pairwise_lt_range
+      intro i1 i2 hlt _ _
+      show N - 1 - k + i1 < N - 1 - k + i2
+      omega
+    · exact List.Pairwise.nil
+  · rw [List.pairwise_reverse]
+    apply List.Pairwise.imp _ (List.Pairwise.and_mem.1 List.pairwise_lt_range)
+    intro k2 k1 ⟨hm2, hm1, hlt⟩ x hx y hy
+    simp only [List.mem_range] at hm1 hm2
+    by_cases h1 : k1 % 2 = 1
+    · by_cases h2 : k2 % 2 = 1
+      · simp only [h1, h2, if_true, List.mem_map, List.mem_range] at hx hy
+        obtain ⟨i1, hi1, rfl⟩ := hx
+        obtain ⟨i2, hi2, rfl⟩ := hy
+        intro t1 t2
+        simp only [touch, decide_eq_true_eq] at t1 t2
+        show N - 1 - k1 + i1 < N - 1 - k2 + i2
+        omega
+      · simp [h2] at hy
+    · simp [h1] at hx
+
+theorem compiledT_wire_sorted (N w : Nat) : (compiledT N).Pairwise (WOrd w) := by
+  rw [compiledT, List.pairwise_append]
+  refine ⟨tiT_wire_sorted N w, trT_wire_sorted N w, ?_⟩
+  rintro ⟨l1, p1⟩ hx ⟨l2, p2⟩ hy t1 t2
+  obtain ⟨k1, hk1, he1, hl1, rfl⟩ := mem_tiT.1 hx
+  obtain ⟨k2, hk2, he2, i, hi, rfl, rfl⟩ := mem_trT.1 hy
+  simp only [touch, decide_eq_true_eq] at t1 t2
+  show l1 < N - 1 - k2 + i
+  omega
+
+/-- **the combinatorial core**: on every wire the tagged gate sequences agree -/
+theorem tagged_wire_eq (N w : Nat) : (compiledT N).filter (touch w) = (layoutT N).filter (touch w) := by
+  apply sorted_ext (R := fun x y : Nat × Nat => x.1 < y.1) (fun a => Nat.lt_irrefl _)
+    (fun a b h => Nat.lt_asymm h)
+  · exact List.pairwise_filter.2 (compiledT_wire_sorted N w)
+  · exact List.pairwise_filter.2 (layoutT_wire_sorted N w)
+  · intro a
+    simp only [List.mem_filter, mem_compiledT_iff]
+
+/-- first modes of the gates touching wire `w` -/
+def touchP (w p : Nat) : Bool := decide (p = w ∨ p + 1 = w)
+
+theorem mesh_wire_eq (N w : Nat) : (compiledMZ N).filter (touchP w) = (layoutMZ N).filter (touchP w) := by
+  rw [← compiledT_snd, ← layoutT_snd, List.filter_map, List.filter_map]
+  have : (touchP w ∘ Prod.snd) = touch w := by
+    funext x
+    rfl
+  rw [this, tagged_wire_eq]
+
+/-! ### lifting to the command skeleton -/
+
+theorem filter_unique {l : List Nat} (hn : l.Nodup) {q : Nat → Bool} {a : Nat} (ha : a ∈ l) (hq : q a = true)
+    (hu : ∀ j ∈ l, q j = true → j = a) : l.filter q = [a] := by
+  induction l with
+  | nil => simp at ha
+  | cons x xs ih =>
+    rw [List.nodup_cons] at hn
+    by_cases hx : x = a
+    · subst hx
+      have : xs.filter q = [] := by
+        apply List.filter_eq_nil_iff.2
+        intro j hj hqj
+        have := hu j (List.mem_cons_of_mem _ hj) hqj
+        exact hn.1 (this ▸ hj)
+      simp [List.filter_cons, hq, this]
+    · have hax : a ∈ xs := by
+        rcases List.mem_cons.1 ha with e | h
+        · exact absurd e.symm hx
+        · exact h
+      have hqx : q x = false := by
+        cases hqx : q x with
+        | false => rfl
+        | true => exact absurd (hu x List.mem_cons_self hqx) hx
+      simp only [List.filter_cons, hqx, Bool.false_eq_true, if_false]
+      exact ih hn.2 hax fun j hj => hu j (List.mem_cons_of_mem _ hj)
+
+/-- the command acts on wire `w` -/
+def cw (w : Nat) (c : Sk) : Bool := c.modes.contains w
+
+theorem s2_wire (N w : Nat) (o : List Nat) (hn : o.Nodup) (hm : ∀ i, i ∈ o ↔ i < N) :
+    (o.map (s2Sk N)).filter (cw w) =
+      if w < N then [s2Sk N w] else if w < 2 * N then [s2Sk N (w - N)] else [] := by
+  rw [List.filter_map]
+  have hq : ∀ i, (cw w ∘ s2Sk N) i = decide (i = w ∨ i + N = w) := by
+    intro i
+    simp only [Function.comp_apply, cw, s2Sk, List.contains_cons, List.contains_nil, Bool.or_false]
+    rw [Bool.eq_iff_iff]
+    simp only [Bool.or_eq_true, beq_iff_eq, decide_eq_true_eq]
+    omega
+  rw [List.filter_congr (fun i _ => hq i)]
+  by_cases h1 : w < N
+  · rw [if_pos h1, filter_unique hn ((hm w).2 h1) (by simp)]
+    · rfl
+    · intro j hj hqj
+      have := (hm j).1 hj
+      simp only [decide_eq_true_eq] at hqj
+      omega
+  · rw [if_neg h1]
+    by_cases h2 : w < 2 * N
+    · rw [if_pos h2, filter_unique hn ((hm (w - N)).2 (by omega)) (by simp; omega)]
+      · rfl
+      · intro j hj hqj
+        have := (hm j).1 hj
+        simp only [decide_eq_true_eq] at hqj
+        omega
+    · rw [if_neg h2]
+      have : o.filter (fun i => decide (i = w ∨ i + N = w)) = [] := by
+        apply List.filter_eq_nil_iff.2
+        intro j hj
+        have := (hm j).1 hj
+        simp only [decide_eq_true_eq]
+        omega
+      rw [this]
+      rfl
+
+theorem mz_wire (w off : Nat) (M : List Nat) :
+    (M.map (mzSk off)).filter (cw w) =
+      if off ≤ w then (M.filter (touchP (w - off))).map (mzSk off) else [] := by
+  rw [List.filter_map]
+  have hq : ∀ p, (cw w ∘ mzSk off) p = decide (p + off = w ∨ p + 1 + off = w) := by
+    intro p
+    simp only [Function.comp_apply, cw, mzSk, List.contains_cons, List.contains_nil, Bool.or_false]
+    rw [Bool.eq_iff_iff]
+    simp only [Bool.or_eq_true, beq_iff_eq, decide_eq_true_eq]
+    omega
+  rw [List.filter_congr (fun p _ => hq p)]
+  by_cases h : off ≤ w
+  · rw [if_pos h]
+    congr 1
+    apply List.filter_congr
+    intro p _
+    simp only [touchP]
+    rw [Bool.eq_iff_iff]
+    simp only [decide_eq_true_eq]
+    omega
+  · rw [if_neg h]
+    have : M.filter (fun p => decide (p + off = w ∨ p + 1 + off = w)) = [] := by
+      apply List.filter_eq_nil_iff.2
+      intro p _
+      simp only [decide_eq_true_eq]
+      omega
+    rw [this]
+    rfl
+
+theorem touchP_out_of_range {N w : Nat} {M : List Nat} (hadj : ∀ p ∈ M, p + 1 < N) (hw : N ≤ w) :
+    M.filter (touchP w) = [] := by
+  apply List.filter_eq_nil_iff.2
+  intro p hp
+  have := hadj p hp
+  simp only [touchP, decide_eq_true_eq]
+  omega
+
+theorem r_wire (n w off : Nat) :
+    ((List.range n).map (fun i => rSk (i + off))).filter (cw w) =
+      if off ≤ w ∧ w < off + n then [rSk w] else [] := by
+  rw [List.filter_map]
+  have hq : ∀ i, (cw w ∘ fun i => rSk (i + off)) i = decide (i + off = w) := by
+    intro i
+    simp only [Function.comp_apply, cw, rSk, List.contains_cons, List.contains_nil, Bool.or_false]
+    rw [Bool.eq_iff_iff]
+    simp only [beq_iff_eq, decide_eq_true_eq]
+    omega
+  rw [List.filter_congr (fun i _ => hq i)]
+  by_cases h : off ≤ w ∧ w < off + n
+  · rw [if_pos h, filter_unique List.nodup_range (a := w - off) (by simp; omega) (by simp; omega)]
+    · simp only [List.map_cons, List.map_nil]
+      congr 2
+      omega
+    · intro j _ hqj
+      simp only [decide_eq_true_eq] at hqj
+      omega
+  · rw [if_neg h]
+    have : (List.range n).filter (fun i => decide (i + off = w)) = [] := by
+      apply List.filter_eq_nil_iff.2
+      intro j hj
+      simp only [List.mem_range] at hj
+      simp only [decide_eq_true_eq]
+      omega
+    rw [this]
+    rfl
+
+theorem meas_wire (n w : Nat) : [measSk n].filter (cw w) = if w < n then [measSk n] else [] := by
+  by_cases h : w < n
+  · simp [cw, measSk, h]
+  · simp [cw, measSk, h]
+
+theorem onWire_eq_filter (w : Nat) (l : List Sk) : onWire w l = l.filter (cw w) := rfl
+
+/-- **template conformance**: on every wire the emitted circuit carries the same commands on the same modes
+in the same order as the device layout -/
+theorem xCompiled_wire_eq (N w : Nat) (o : List Nat) (hn : o.Nodup) (hm : ∀ i, i ∈ o ↔ i < N) :
+    onWire w (xCompiled N o) = onWire w (xLayout N) := by
+  have hr : (List.range (2 * N)).map rSk = (List.range (2 * N)).map (fun i => rSk (i + 0)) := by simp
+  have hmem : ∀ i, i ∈ List.range N ↔ i < N := fun i => List.mem_range
+  simp only [onWire_eq_filter, xCompiled_parts, xLayout, hr, List.filter_append, s2_wire N w o hn hm,
+    s2_wire N w (List.range N) List.nodup_range hmem, mz_wire, r_wire, meas_wire, mesh_wire_eq]
+  by_cases h1 : w < N
+  · have h2 : ¬ N ≤ w := by omega
+    have h3 : w < 2 * N := by omega
+    have h4 : w < 0 + N := by omega
+    have h5 : w < 0 + 2 * N := by omega
+    have h6 : ¬ (N ≤ w ∧ w < N + N) := by omega
+    simp [h1, h2, h3, h4, h5, h6]
+  · have h2 : N ≤ w := by omega
+    have e1 : (layoutMZ N).filter (touchP w) = [] := touchP_out_of_range (fun p hp => layoutMZ_adjacent hp) h2
+    by_cases h3 : w < 2 * N
+    · have h4 : ¬ w < 0 + N := by omega
+      have h5 : w < 0 + 2 * N := by omega
+      have h6 : N ≤ w ∧ w < N + N := ⟨h2, by omega⟩
+      simp [h1, h2, h3, h4, h5, h6, e1]
+    · have h4 : ¬ w < 0 + N := by omega
+      have h5 : ¬ w < 0 + 2 * N := by omega
+      have h6 : ¬ (N ≤ w ∧ w < N + N) := by omega
+      have e2 : (layoutMZ N).filter (touchP (w - N)) = [] :=
+        touchP_out_of_range (fun p hp => layoutMZ_adjacent hp) (by omega)
+      simp [h1, h2, h3, h4, h5, h6, e1, e2]
+      omega
+
 end SFV.Hw
